@@ -43,3 +43,6 @@ package xpub
 //@
 //@ func (*socket).AddPipe
 //@   before call:SetPrivate#1 assert cap(p.sendq) == s.sendQLen
+//@
+//@ func (*socket).RemovePipe
+//@   may_close p.closeq caller
